@@ -12,6 +12,12 @@ def run(ctx, check_ast):
   cfg = gen_py.Cfg.everything(annotations=0.3, n_stmts=(4, 10))
 
   def body(p):
+    if "nested-class-shadows-module-class" in p["features"]:
+      # the comparison keys declarations by class name and member; classes of
+      # the same name at different nesting levels cannot be told apart there
+      # (a limit of this harness, not of Optimize)
+      ctx.event("P:skipped-same-named-nested-classes")
+      return
     src = gen_py.render(p)
     opts = config.Options.create("m.py", python_version=(3, 12))
 
